@@ -38,6 +38,7 @@ var (
 	B0   = user('b', 0)
 	C1   = user('c', 1)
 	E2   = user('e', 2)
+	Z1   = user('z', 0xff) // an ordinary account whose address ends in 0xff (shard 255 mod n)
 	S0   = contract('s', 0)
 	S1c  = contract('s', 1)
 	D0   = contract('d', 0)
@@ -84,6 +85,8 @@ func Name(a []byte) string {
 		return "c1"
 	case string(E2):
 		return "e2"
+	case string(Z1):
+		return "z1"
 	case string(S0):
 		return "s0"
 	case string(S1c):
@@ -128,6 +131,19 @@ func SysCall(recipient []byte, fn string, args ...[]byte) world.Action {
 // PauseCall builds ESDTPause/ESDTUnPause on the given shard.
 func PauseCall(shard int, fn string, tok []byte) world.Action {
 	return world.Action{Kind: world.ActCall, Caller: ESDT, Recipient: Sys, Func: fn, Args: [][]byte{tok}, Gas: Gas, Shard: shard}
+}
+
+// SysOn is the shard-flavoured system account address the system contract's broadcast uses
+// (0xff x 31 followed by the shard id).
+func SysOn(shard int) []byte {
+	a := append([]byte{}, Sys...)
+	a[len(a)-1] = byte(shard)
+	return a
+}
+
+// PauseCallAt is PauseCall addressed to the shard-flavoured system account address.
+func PauseCallAt(shard int, fn string, tok []byte) world.Action {
+	return world.Action{Kind: world.ActCall, Caller: ESDT, Recipient: SysOn(shard), Func: fn, Args: [][]byte{tok}, Gas: Gas, Shard: shard}
 }
 
 // Deliver builds the delivery of in-flight message i.
@@ -188,6 +204,11 @@ type Builder struct {
 	Env *world.Env
 	W   *world.World
 	Log []string
+	// Legs records every execution of the construction, so that the oracles of a search can be
+	// applied to the seed-building steps as well; Failed is set (and construction stops) when a
+	// step that has to succeed does not.
+	Legs   []*world.Leg
+	Failed string
 }
 
 // NewBuilder starts from the empty world with the contracts of the universe deployed (deployment
@@ -212,19 +233,35 @@ func NewBuilder(env *world.Env) *Builder {
 
 // Must applies an action and panics unless every leg succeeded.
 func (b *Builder) Must(act world.Action) *Builder {
+	if b.Failed != "" {
+		return b
+	}
+	if (act.Kind == world.ActDeliver || act.Kind == world.ActDeliverTwice) && act.Msg >= len(b.W.Inflight) {
+		b.Failed = "seed construction: no message in flight to deliver"
+		return b
+	}
 	nw, legs := b.Env.Step(b.W, act)
+	b.Legs = append(b.Legs, legs...)
 	for _, l := range legs {
 		if !l.OK() && l.Side != "intra" {
-			panic(fmt.Sprintf("seed construction failed: %s %s: err=%v panic=%v", l.Side, l.Func, l.Err, l.Panic))
+			b.Failed = fmt.Sprintf("seed construction step failed although it has to succeed: %s %s: err=%v panic=%v", l.Side, l.Func, l.Err, l.Panic)
+			return b
 		}
 	}
 	b.W = nw
 	return b
 }
 
+// Fail marks the construction as failed (used by seed recipes for their own expectations).
+func (b *Builder) Fail(why string) {
+	if b.Failed == "" {
+		b.Failed = why
+	}
+}
+
 // DeliverAll delivers every in-flight message (in canonical order) and requires success.
 func (b *Builder) DeliverAll() *Builder {
-	for len(b.W.Inflight) > 0 {
+	for len(b.W.Inflight) > 0 && b.Failed == "" {
 		b.Must(Deliver(0))
 	}
 	return b
@@ -254,8 +291,17 @@ func (b *Builder) sft() *Builder {
 	return b
 }
 
-// Seed builds the named seed state.
+// Seed builds the named seed state (panics when the construction fails).
 func Seed(env *world.Env, name string) *world.World {
+	b := SeedBuilder(env, name)
+	if b.Failed != "" {
+		panic(b.Failed)
+	}
+	return b.W
+}
+
+// SeedBuilder builds the named seed state and returns the builder with its recorded legs.
+func SeedBuilder(env *world.Env, name string) *Builder {
 	b := NewBuilder(env)
 	switch name {
 	case "empty":
@@ -290,12 +336,15 @@ func Seed(env *world.Env, name string) *world.World {
 					idx = j
 				}
 			}
-			if idx < 0 {
-				panic("seed refunds: no message to deliver")
+			if idx < 0 || b.Failed != "" {
+				b.Fail("seed refunds: no message to deliver")
+				break
 			}
 			nw, legs := b.Env.Step(b.W, Deliver(idx))
+			b.Legs = append(b.Legs, legs...)
 			if legs[0].OK() || legs[0].Refund == nil {
-				panic("seed refunds: delivery to the non-payable contract was expected to fail with a refund")
+				b.Fail("seed refunds: delivery to the non-payable contract was expected to fail with a refund")
+				break
 			}
 			b.W = nw
 		}
@@ -315,12 +364,15 @@ func Seed(env *world.Env, name string) *world.World {
 					idx = j
 				}
 			}
-			if idx < 0 {
-				panic("seed refunds-with-call: no message to deliver")
+			if idx < 0 || b.Failed != "" {
+				b.Fail("seed refunds-with-call: no message to deliver")
+				break
 			}
 			nw, legs := b.Env.Step(b.W, Deliver(idx))
+			b.Legs = append(b.Legs, legs...)
 			if legs[0].OK() || legs[0].Refund == nil {
-				panic("seed refunds-with-call: the delivery was expected to be refused and answered by a refund")
+				b.Fail("seed refunds-with-call: the delivery was expected to be refused and answered by a refund")
+				break
 			}
 			b.W = nw
 		}
@@ -331,5 +383,5 @@ func Seed(env *world.Env, name string) *world.World {
 	default:
 		panic("unknown seed " + name)
 	}
-	return b.W
+	return b
 }
